@@ -3,6 +3,7 @@ package bebop
 import (
 	"fmt"
 	"strconv"
+	"unsafe"
 )
 
 func evaluateBitflagExpr(n bitFlagExprNode, opts []EnumOption, uinttype bool, bitsize int) (int64, uint64, error) {
@@ -48,7 +49,8 @@ func evaluateBitflagExpSigned[T signedInteger](n bitFlagExprNode, opts []EnumOpt
 		}
 		return 0, readError(v.tk, "enum option %v undefined", name)
 	case numberNode:
-		optInteger, err := strconv.ParseInt(string(v.tk.concrete), 0, 64)
+		// a literal that does not fit the enum's base type is an error, not a value to truncate
+		optInteger, err := strconv.ParseInt(string(v.tk.concrete), 0, int(unsafe.Sizeof(T(0)))*8)
 		if err != nil {
 			return 0, err
 		}
@@ -101,7 +103,8 @@ func evaluateBitflagExprUnsigned[T unsignedInteger](n bitFlagExprNode, opts []En
 		}
 		return 0, readError(v.tk, "enum option %v undefined", name)
 	case numberNode:
-		optInteger, err := strconv.ParseUint(string(v.tk.concrete), 0, 64)
+		// a literal that does not fit the enum's base type is an error, not a value to truncate
+		optInteger, err := strconv.ParseUint(string(v.tk.concrete), 0, int(unsafe.Sizeof(T(0)))*8)
 		if err != nil {
 			return 0, err
 		}
